@@ -99,3 +99,35 @@ static void run_Data_frame(int which)
 void h_Data_frame_append(void) { run_Data_frame(0); }
 void h_Data_frame_replace(void) { run_Data_frame(1); }
 void h_Data_frame_extend(void) { run_Data_frame(2); }
+
+/* what the aliasing query needs from Frame::add(Frame): it reads the argument's two parts and gives self fresh ones */
+void contract_shallow_Frame__add__Frame(struct Frame *self, const struct Frame *frame)
+__CPROVER_requires(vf_exc == 0 && __CPROVER_rw_ok(self, sizeof(*self)) && __CPROVER_r_ok(frame, sizeof(*frame)) &&
+                   __CPROVER_r_ok(frame->_points, sizeof(struct Points)) && __CPROVER_r_ok(frame->_analogs, sizeof(struct Analogs)))
+__CPROVER_assigns(self->_points, self->_analogs)
+__CPROVER_ensures(__CPROVER_is_fresh(self->_points, sizeof(struct Points)) && __CPROVER_is_fresh(self->_analogs, sizeof(struct Analogs)) &&
+                  self->_points->_points.size == frame->_points->_points.size && vf_exc == 0);
+
+/* the argument may be one of the stored frames (c.frame(c.data().frame(0))): growth must not invalidate it before it is read */
+void contract_alias_Data__frame__Frame_sz(struct Data *self, const struct Frame *frame, size_t idx)
+__CPROVER_requires(vf_exc == 0 && __CPROVER_rw_ok(self, sizeof(*self)) && VF_VEC_OK(self->_frames, struct Frame) &&
+                   self->_frames.size < VF_MAXN && (idx == SIZE_MAX || idx < VF_MAXN) && vf_gf < self->_frames.size &&
+                   frame == &self->_frames.data[vf_gf] && __CPROVER_r_ok(frame->_points, sizeof(struct Points)) &&
+                   __CPROVER_r_ok(frame->_analogs, sizeof(struct Analogs)))
+__CPROVER_assigns(self->_frames.data, self->_frames.size, __CPROVER_object_whole(self->_frames.data))
+__CPROVER_frees(self->_frames.data)
+/*@ C13 C06 : Data_frame_alias.count */
+__CPROVER_ensures(self->_frames.size == (idx == SIZE_MAX ? OLDN + 1 : (idx >= OLDN ? idx + 1 : OLDN)))
+/*@ C13 C06 : Data_frame_alias.target-point-count */
+__CPROVER_ensures(self->_frames.data[TARGET]._points->_points.size == __CPROVER_old(frame->_points->_points.size))
+/*@ C13 C10 : Data_frame_alias.nothrow */ __CPROVER_ensures(vf_exc == 0);
+
+void h_Data_frame_alias(void)
+{
+  struct Data *self = mk_data();
+  __CPROVER_assume(vf_gf < self->_frames.size); /* mk_data gave this stored frame its own Points / Analogs objects */
+  size_t idx;
+  __CPROVER_assume(idx == SIZE_MAX || idx >= self->_frames.size); /* the growing cases */
+  Data__frame__Frame_sz(self, &self->_frames.data[vf_gf], idx);
+  VF_CANARY();
+}
